@@ -1,18 +1,22 @@
 package props
 
-import "gvc/internal/driver"
+import (
+	"gvc/internal/driver"
+	"gvc/internal/vc"
+)
 
 // Table lists the claimed properties and the obligations that decide them.
 func Table() map[string]*Property {
 	t := map[string]*Property{}
 	add := func(p *Property) { t[p.ID] = p }
+	fsGhost := []vc.GhostVar{{Name: "fs", Type: "map[string]string"}, {Name: "foff", Type: "map[*os.File]int"}, {Name: "handledBy", Type: "Generator"}, {Name: "synced", Type: "bool"}}
 
 	add(&Property{
 		ID: "C11",
 		Groups: []Group{{Layer: "D", Pkg: "derive", Funcs: []string{
 			"derive.eq", "derive.typesMap.nameOf", "derive.typesMap.newName", "derive.typesMap.SetFuncName",
 			"derive.typesMap.GetFuncName", "derive.typesMap.Generating", "derive.typesMap.isGenerated",
-		}}},
+		}}, {Layer: "D", Pkg: "derive", Ghost: fsGhost, Funcs: []string{"derive.union", "derive.newPackage"}}},
 		Assumptions: []string{
 			"A-int: machine integers are mathematical integers",
 			"EqIsEquivalence: assignability (derive.eq) is reflexive, symmetric and transitive on the argument type lists involved (the property quantifies over pairwise non-assignable types)",
@@ -24,12 +28,54 @@ func Table() map[string]*Property {
 			"gvc VC generator; z3 4.8.12, z3 5.1.0, cvc5 1.0"},
 		Note: "SetFuncName's four-case contract (same / duplicate / conflict / fresh) with flag-controlled resolution, injectivity of the name table, freshness of minted names w.r.t. the table and the reserved names",
 	})
+	fsTrusted := []string{
+		"external contracts (trusted): os.Create (creates/truncates), os.OpenFile (truncates iff O_TRUNC, no creation without O_CREATE), os.Stat, os.IsNotExist, os.Remove, (*os.File).Close, go/format.Node and printer.WriteTo (write their bytes at the handle's offset: content' = overwrite(content, offset, data))",
+		"overwrite axioms: appending at the end concatenates; writing at offset 0 over a content that is not longer replaces it; over a longer content leaves a tail",
+		"assumed (not verified) contracts of repository functions: newFileInfos (never returns derived.gen.go; non-nil entries), newPrinter/newQualifier/newTypesMap/Plugin.New return non-nil, load, loader.Program.Package, pkg.Generate (writes only printer and type-table state)",
+		"fresh allocations are distinct from every address reachable from the state at the allocation",
+		"gvc VC generator; z3 4.8.12, z3 5.1.0, cvc5 1.0",
+	}
+	add(&Property{
+		ID:     "C10",
+		Groups: []Group{{Layer: "D", Pkg: "derive", Ghost: fsGhost, Funcs: []string{"derive.pkg.Filename", "derive.pkg.Print", "derive.pkg.Delete", "derive.pkg.Add", "derive.newPackage", "derive.program.generatePackage"}}},
+		Assumptions: []string{
+			"A-int; Go maps and slices are modelled as values (no aliasing between distinct map/slice variables)",
+			"go/format's output for an AST is 'the gofmt formatting' (Format is uninterpreted); comment placement is go/printer's business",
+			"Generator.Add returns the registered name unless the generator was built with -autoname/-dedup (checked per plugin at Layer G: Add returns SetFuncName's result; SetFuncName's no-flags clause is C11's)",
+			"termination is not verified",
+		},
+		Trusted: fsTrusted,
+		Note:    "frame on the ghost file system: newPackage changes no file without -autoname/-dedup (the 'unreachable' rename panic is proved unreachable), never touches derived.gen.go, creates or deletes nothing, and a rewritten file holds exactly Format(ast) (needs truncation); generatePackage changes only derived.gen.go (plus rewritten sources under the flags), on every return including errors; Print/Delete touch only Filename()",
+	})
+	add(&Property{
+		ID:     "C07",
+		Groups: []Group{{Layer: "D", Pkg: "derive", Ghost: fsGhost, Funcs: []string{"derive.pkg.Filename", "derive.pkg.Print", "derive.pkg.Delete", "derive.program.generatePackage"}}},
+		Assumptions: []string{
+			"decided: the file effects (R1 Print leaves exactly the printer's bytes in derived.gen.go whatever it held before, incl. a longer or truncated remnant; R2 on every successful return the derived file was written from the last package state or removed; Print is reached only with content, Delete only without)",
+			"NOT decided by any contract within reach: that the argument types goderive reads at the call sites are independent of the old derived.gen.go - that is go/types run over user sources plus the old file (loader, AllowErrors); the stale-signature case (deriveSort(deriveKeys(m)) after m's key type changes) found by hand in the design round is therefore outside this check",
+			"newFileInfos never scanning derived.gen.go is an assumed contract here",
+		},
+		Trusted: fsTrusted,
+		Note:    "file-effect half of the property only; see assumptions",
+	})
+	add(&Property{
+		ID:     "C12",
+		Groups: []Group{{Layer: "D", Pkg: "derive", Ghost: fsGhost, Funcs: []string{"derive.sortPlugins", "derive.pkg.Add"}}},
+		Assumptions: []string{
+			"string lemmas: hasPrefix(s,p) ==> len(p) <= len(s); byte-wise string order is a strict total order",
+			"main's prefix substitution loop (strings.Replace of 'derive' by -prefix, per-plugin override) is not under contract (main is flag/log plumbing around 33 NewPlugin calls)",
+			"prefix parametricity of the emitted templates: generated function names enter emitted text only as FuncName holes produced by GetFuncName (Layer G; see C01)",
+			"uniqueness of the winner for pairwise distinct prefixes follows on paper: two matching prefixes of equal length are the same string",
+		},
+		Trusted: []string{"sort.Slice: result is a rearrangement without inversions w.r.t. a strict weak order (the less function is proved to be one)", "gvc VC generator; SMT solvers"},
+		Note:    "sortPlugins leaves the plugins sorted by (prefix length desc, prefix desc); pkg.Add hands the call to the first plugin whose prefix matches, which under that order has the longest matching prefix; no plugin is consulted when none matches",
+	})
 	semantic := func(r driver.ObResult) bool {
 		// obligations about what the emitted text means (and that it can be given a meaning at all)
 		return r.Layer == "O"
 	}
 	add(&Property{
-		ID: "C02",
+		ID:     "C02",
 		Groups: []Group{{Layer: "O", Funcs: []string{"equal.gen.field", "equal.gen.genStatement", "equal.gen.genFunc", "equal.gen.genCurriedFunc"}, Only: semantic}},
 		Assumptions: []string{
 			"A-int; A-cfg (a hole replaced by a representative of its grammar class parses the same way); A-param (go/types is parametric in opaque named types)",
